@@ -50,7 +50,7 @@ __attribute__((used, visibility("default"))) void __asan_on_error() {
   int b = sim_describe(__asan_get_report_address(), &off, &size, &is_lib, &owner);
   int n = snprintf(buf, sizeof buf, "ASAN desc=%s call=%d op=%d pc=%llu write=%d asize=%zu block=%d off=%lld size=%llu islib=%d owner=%d\n",
                    __asan_get_report_description(), sim_fctx.cur_call[slot], sim_fctx.cur_op[slot],
-                   (unsigned long long)((uint64_t)__asan_get_report_pc() - sim_image_base()), __asan_get_report_access_type(),
+                   (unsigned long long)sim_rel_pc((uint64_t)__asan_get_report_pc()), __asan_get_report_access_type(),
                    __asan_get_report_access_size(), b, (long long)off, (unsigned long long)size, is_lib, owner);
   if (sim_fctx.result_fd > 0 && n > 0) (void)!write(sim_fctx.result_fd, buf, (size_t)n);
 }
@@ -328,6 +328,27 @@ static void program_stats(Json& st, const Program& P) {
   for (auto& t : P.tables) maxn = std::max<uint64_t>(maxn, 2 * t.m);
   st.set("max_n", Json::num(maxn));
   st.set("prog_hash", Json::num(hash_bytes(P.to_json().dump().data(), P.to_json().dump().size())));
+  // a readable digest of the first calls (evidence samples)
+  std::string dg;
+  for (size_t i = 0; i < P.calls.size() && i < 14; ++i) {
+    const Call& c = P.calls[i];
+    const OpInfo& oi = op_info[c.op];
+    if (i) dg += "; ";
+    if (c.task >= 0) dg += "t" + std::to_string(c.task) + ":";
+    dg += oi.name;
+    dg += "(";
+    if (c.mod >= 0) dg += "N=" + std::to_string(P.modules[c.mod].n) + (P.modules[c.mod].type ? ",ntt120" : "");
+    if (c.tab >= 0) dg += "m=" + std::to_string(P.tables[c.tab].m);
+    if (oi.level == 2) dg += "m=" + std::to_string(c.p[0]);
+    for (int k = 0; k < oi.nslots; ++k) {
+      int t = P.slots[c.s[k]].type;
+      if (t == T_ZV || t == T_BIG || t == T_DFT) dg += (k ? "," : ",sz=") + std::to_string(c.sz[k]);
+    }
+    if (c.repeat_of >= 0) dg += ",repeat_of=" + std::to_string(c.repeat_of);
+    dg += ")";
+  }
+  if (P.calls.size() > 14) dg += "; ... " + std::to_string(P.calls.size() - 14) + " more";
+  st.set("digest", Json::str(dg));
 }
 
 // ---------------------------------------------------------------------------------------------- single-thread worlds
